@@ -175,18 +175,8 @@ theorem zipAllEq_self (v : List Rat) : zipAllEq v v = true := by
   | nil => rfl
   | cons a t ih => simp
 
-theorem cmp2_self {x : List Rat} (h : 2 ≤ x.length) : cmp2 x x = .ok true := by
-  match x, h with
-  | a :: b :: t, _ => simp [cmp2]
-
-/-- the range entry of a scaled set can be compared with itself by `same_scaling`
-    (array-valued entries need at least two components: the code indexes `[0]` and `[1]`) -/
-def RangeOK (a : DS) : Prop :=
-  a.scaled = true →
-    match a.range with
-    | some (.pair _ _) => True
-    | some (.arrs m x) => 2 ≤ m.length ∧ 2 ≤ x.length
-    | none => False
+/-- a scaled set has a range entry (`same_scaling` subscripts it) -/
+def RangeOK (a : DS) : Prop := a.scaled = true → a.range.isSome
 
 theorem sameScaling_self_attrs {a c : DS} (hc : attrs c = attrs a) (hr : RangeOK a) :
     sameScaling a c = .ok true := by
@@ -210,8 +200,6 @@ theorem sameScaling_self_attrs {a c : DS} (hc : attrs c = attrs a) (hr : RangeOK
           | scalar q => simp
           | vec v => simp [zipAllEq_self]
       | arrs m x =>
-        rw [hrng] at this
-        simp only [cmp2_self this.1, cmp2_self this.2]
         cases hfa : a.factor with
         | none => simp
         | some f => cases f with
@@ -376,52 +364,115 @@ theorem contains_ofNat_iff {idx : List Int} (hnn : ∀ i ∈ idx, 0 ≤ i) (j : 
       rw [hij] at this; exact this.symm
     rw [← this]; exact hi
 
+theorem foldl_dedup_spec : ∀ (l acc : List Int), acc.Nodup →
+    (l.foldl (fun acc x => if acc.contains x then acc else acc ++ [x]) acc).Nodup ∧
+    ∀ x, x ∈ l.foldl (fun acc x => if acc.contains x then acc else acc ++ [x]) acc ↔ x ∈ acc ∨ x ∈ l
+  | [], acc, h => ⟨h, by simp⟩
+  | a :: l, acc, h => by
+    simp only [List.foldl_cons]
+    by_cases ha : acc.contains a = true
+    · rw [if_pos ha]
+      obtain ⟨h1, h2⟩ := foldl_dedup_spec l acc h
+      refine ⟨h1, fun x => ?_⟩
+      rw [h2 x]
+      have : a ∈ acc := by simpa using ha
+      constructor
+      · rintro (h | h)
+        · exact Or.inl h
+        · exact Or.inr (List.mem_cons_of_mem _ h)
+      · rintro (h | h)
+        · exact Or.inl h
+        · rcases List.mem_cons.mp h with h | h
+          · exact Or.inl (h ▸ this)
+          · exact Or.inr h
+    · rw [if_neg ha]
+      have hna : a ∉ acc := by simpa using ha
+      have hnd : (acc ++ [a]).Nodup := by
+        rw [List.nodup_append]
+        exact ⟨h, by simp, by intro x hx y hy; simp at hy; rintro rfl; exact hna (hy ▸ hx)⟩
+      obtain ⟨h1, h2⟩ := foldl_dedup_spec l (acc ++ [a]) hnd
+      refine ⟨h1, fun x => ?_⟩
+      rw [h2 x]
+      simp only [List.mem_append, List.mem_cons]
+      tauto
+
+theorem dedupFirst_nodup (idx : List Int) : (dedupFirst idx).Nodup := (foldl_dedup_spec idx [] List.nodup_nil).1
+
+theorem mem_dedupFirst {idx : List Int} {x : Int} : x ∈ dedupFirst idx ↔ x ∈ idx := by
+  have := (foldl_dedup_spec idx [] List.nodup_nil).2 x
+  simpa [dedupFirst] using this
+
+theorem removeSamples_eq {s : DS} {idx : List Int}
+    (h : ¬ (idx.any (fun i => i < 0 || i > (s.samples.length : Int)) = true)) :
+    removeSamples s idx =
+      if (dedupFirst idx).isEmpty then (s, updateInternal s (ctor [])) else
+      match removedSingles s (dedupFirst idx) with
+      | .error e => (s, .error e)
+      | .ok parts => ({ s with samples := deleteIdx s.samples (dedupFirst idx) }, listConcatenate parts) := by
+  unfold removeSamples
+  rw [if_neg h]
+  rfl
+
+/-- removal of duplicate-free valid indices `J` (the core of `remove_samples`) -/
+theorem remove_core_perm {s r : DS} {J : List Int} {parts : List DS}
+    (hv : ∀ i ∈ J, 0 ≤ i ∧ i < (s.samples.length : Int)) (hn : J.Nodup)
+    (hp : removedSingles s J = .ok parts) (hr : listConcatenate parts = .ok r) :
+    (r.samples ++ deleteIdx s.samples J).Perm s.samples := by
+  have hrs := listConcatenate_samples hr
+  rw [(removedSingles_spec hp).1] at hrs
+  simp only [hrs, deleteIdx]
+  set l := s.samples with hl
+  set I := J.map Int.toNat with hI
+  have hnn : ∀ i ∈ J, 0 ≤ i := fun i hi => (hv i hi).1
+  have h1 : J.filterMap (fun i => l[i.toNat]?) = I.filterMap (fun j => l[j]?) := by
+    simp [hI, List.filterMap_map]
+  have h2 : (List.range l.length).filterMap (fun (j : Nat) => if J.contains (Int.ofNat j) then none else l[j]?) =
+      ((List.range l.length).filter (fun j => !I.contains j)).filterMap (fun j => l[j]?) := by
+    rw [List.filterMap_filter]
+    apply List.filterMap_congr
+    intro j _
+    rw [contains_ofNat_iff hnn j]
+    cases (I.contains j) <;> simp
+  rw [h1, h2, ← List.filterMap_append]
+  apply perm_filterMap_getElem?
+  have hInd : I.Nodup := by
+    refine List.Nodup.map_on ?_ hn
+    intro a ha b hb hab
+    have h1 := Int.toNat_of_nonneg (hnn a ha)
+    have h2 := Int.toNat_of_nonneg (hnn b hb)
+    rw [← h1, ← h2, hab]
+  have hIsub : ∀ j ∈ I, j < l.length := by
+    intro j hj
+    obtain ⟨i, hi, hij⟩ := List.mem_map.mp hj
+    have := (hv i hi)
+    omega
+  have hperm : I.Perm ((List.range l.length).filter (fun j => I.contains j)) := by
+    rw [List.perm_ext_iff_of_nodup hInd (List.Nodup.filter _ List.nodup_range)]
+    intro j
+    simp only [List.mem_filter, List.mem_range, List.contains_iff_mem]
+    exact ⟨fun h => ⟨hIsub j h, h⟩, fun h => h.2⟩
+  exact (List.Perm.append_right _ hperm).trans (List.filter_append_perm _ _)
+
+/-- `remove_samples` with valid indices (repetitions allowed): removed and kept samples are the samples of the set -/
 theorem removeSamples_perm {s s' r : DS} {idx : List Int}
-    (hv : ∀ i ∈ idx, 0 ≤ i ∧ i < (s.samples.length : Int)) (hn : idx.Nodup)
+    (hv : ∀ i ∈ idx, 0 ≤ i ∧ i < (s.samples.length : Int))
     (h : removeSamples s idx = (s', .ok r)) : (r.samples ++ s'.samples).Perm s.samples := by
-  unfold removeSamples at h
+  have hany : ¬ (idx.any (fun i => i < 0 || i > (s.samples.length : Int)) = true) := by
+    simp only [List.any_eq_true, not_exists, not_and, Bool.or_eq_true, decide_eq_true_eq]
+    intro i hi; have := hv i hi; omega
+  rw [removeSamples_eq hany] at h
   split at h
-  · cases h
+  · simp only [Prod.mk.injEq] at h
+    obtain ⟨hs', hr⟩ := h
+    subst hs'
+    rw [(updateInternal_ok hr).1]; simp
   · split at h
     · cases h
     · next parts hp =>
       simp only [Prod.mk.injEq] at h
       obtain ⟨hs', hr⟩ := h
-      have hrs := listConcatenate_samples hr
-      rw [(removedSingles_spec hp).1] at hrs
       subst hs'
-      simp only [hrs, deleteIdx]
-      set l := s.samples with hl
-      set I := idx.map Int.toNat with hI
-      have hnn : ∀ i ∈ idx, 0 ≤ i := fun i hi => (hv i hi).1
-      have h1 : idx.filterMap (fun i => l[i.toNat]?) = I.filterMap (fun j => l[j]?) := by
-        simp [hI, List.filterMap_map]
-      have h2 : (List.range l.length).filterMap (fun (j : Nat) => if idx.contains (Int.ofNat j) then none else l[j]?) =
-          ((List.range l.length).filter (fun j => !I.contains j)).filterMap (fun j => l[j]?) := by
-        rw [List.filterMap_filter]
-        apply List.filterMap_congr
-        intro j _
-        rw [contains_ofNat_iff hnn j]
-        cases (I.contains j) <;> simp
-      rw [h1, h2, ← List.filterMap_append]
-      apply perm_filterMap_getElem?
-      have hInd : I.Nodup := by
-        refine List.Nodup.map_on ?_ hn
-        intro a ha b hb hab
-        have h1 := Int.toNat_of_nonneg (hnn a ha)
-        have h2 := Int.toNat_of_nonneg (hnn b hb)
-        rw [← h1, ← h2, hab]
-      have hIsub : ∀ j ∈ I, j < l.length := by
-        intro j hj
-        obtain ⟨i, hi, hij⟩ := List.mem_map.mp hj
-        have := (hv i hi)
-        omega
-      have hperm : I.Perm ((List.range l.length).filter (fun j => I.contains j)) := by
-        rw [List.perm_ext_iff_of_nodup hInd (List.Nodup.filter _ List.nodup_range)]
-        intro j
-        simp only [List.mem_filter, List.mem_range, List.contains_iff_mem]
-        exact ⟨fun h => ⟨hIsub j h, h⟩, fun h => h.2⟩
-      exact (List.Perm.append_right _ hperm).trans (List.filter_append_perm _ _)
+      exact remove_core_perm (fun i hi => hv i (mem_dedupFirst.mp hi)) (dedupFirst_nodup idx) hp hr
 
 theorem concatenate_nonempty_attrs {a b r : DS} (h : concatenate a b = .ok r)
     (ha : a.samples ≠ []) (hb : b.samples ≠ []) : attrs r = attrs a ∧ r.samples ≠ [] := by
@@ -448,37 +499,43 @@ theorem foldlM_concatenate_attrs : ∀ (ds : List DS) (d r : DS), d.samples ≠ 
       obtain ⟨hay, hyne⟩ := concatenate_nonempty_attrs hc hd (hx x (by simp))
       rw [foldlM_concatenate_attrs xs y r hyne (fun z hz => hx z (by simp [hz])) h, hay]
 
-/-- the set returned by a successful `remove_samples` with at least one index carries the attributes of `self` -/
-theorem removeSamples_attrs {s s' r : DS} {idx : List Int} (hne : idx ≠ [])
+/-- the set returned by a successful `remove_samples` carries the attributes of `self` (also for no index at all) -/
+theorem removeSamples_attrs {s s' r : DS} {idx : List Int}
     (h : removeSamples s idx = (s', .ok r)) : attrs r = attrs s ∧ attrs s' = attrs s ∧ s'.dim = s.dim := by
   unfold removeSamples at h
   split at h
   · cases h
-  · split at h
-    · cases h
-    · next parts hp =>
-      simp only [Prod.mk.injEq] at h
+  · simp only at h
+    split at h
+    · simp only [Prod.mk.injEq] at h
       obtain ⟨hs', hr⟩ := h
       subst hs'
-      refine ⟨?_, rfl, rfl⟩
-      obtain ⟨_, hattrs, hlen, hnes⟩ := removedSingles_spec hp
-      cases parts with
-      | nil =>
-        exfalso
-        have : idx.length = 0 := by simpa using hlen.symm
-        exact hne (List.length_eq_zero_iff.mp this)
-      | cons d ds =>
-        simp only [listConcatenate] at hr
-        rw [foldlM_concatenate_attrs ds d r (hnes d (by simp)) (fun x hx => hnes x (by simp [hx])) hr]
-        exact hattrs d (by simp)
+      exact ⟨(updateInternal_ok hr).2.2.2, rfl, rfl⟩
+    · next hne =>
+      split at h
+      · cases h
+      · next parts hp =>
+        simp only [Prod.mk.injEq] at h
+        obtain ⟨hs', hr⟩ := h
+        subst hs'
+        refine ⟨?_, rfl, rfl⟩
+        obtain ⟨_, hattrs, hlen, hnes⟩ := removedSingles_spec hp
+        cases parts with
+        | nil =>
+          exfalso
+          have : (dedupFirst idx).length = 0 := by simpa using hlen.symm
+          exact hne (by simp [List.length_eq_zero_iff.mp this])
+        | cons d ds =>
+          simp only [listConcatenate] at hr
+          rw [foldlM_concatenate_attrs ds d r (hnes d (by simp)) (fun x hx => hnes x (by simp [hx])) hr]
+          exact hattrs d (by simp)
 
 /-- out-of-range indices: an exception, and `self` is exactly what it was -/
 theorem removeSamples_oob {s : DS} {idx : List Int}
     (h : ∃ i ∈ idx, i < 0 ∨ (s.samples.length : Int) ≤ i) : ∃ e, removeSamples s idx = (s, .error e) := by
-  unfold removeSamples
-  split
-  · exact ⟨_, rfl⟩
-  · next hany =>
+  by_cases hany : idx.any (fun i => i < 0 || i > (s.samples.length : Int)) = true
+  · exact ⟨.value, by unfold removeSamples; rw [if_pos hany]⟩
+  · rw [removeSamples_eq hany]
     have hall : ∀ i ∈ idx, ¬ (i < 0) ∧ ¬ (i > (s.samples.length : Int)) := by
       intro i hi
       simp only [List.any_eq_true, not_exists, not_and, Bool.or_eq_true, decide_eq_true_eq] at hany
@@ -490,7 +547,12 @@ theorem removeSamples_oob {s : DS} {idx : List Int}
       omega
     have hnone : s.samples[i.toNat]? = none := by
       rw [hin]; simp
-    obtain ⟨e, he⟩ := removedSingles_error_of_oob ⟨i, hi, hnone⟩
-    exact ⟨e, by rw [he]⟩
+    have hiJ : i ∈ dedupFirst idx := mem_dedupFirst.mpr hi
+    have hne : (dedupFirst idx).isEmpty = false := by
+      cases hJ : dedupFirst idx with
+      | nil => rw [hJ] at hiJ; simp at hiJ
+      | cons a t => rfl
+    obtain ⟨e, he⟩ := removedSingles_error_of_oob ⟨i, hiJ, hnone⟩
+    exact ⟨e, by rw [hne, he]; rfl⟩
 
 end SparseSpace.DSM
